@@ -69,6 +69,12 @@ def handle : List String → Option String
     let t := Tak.Gen.allMovesForSize p.size
     let g := (Tak.Gen.allMoves p).filter fun m => !t.contains m
     pure (showMoves ((t ++ g.eraseDups).filter (Rules.legalb p)))
+  | "legalgen" :: rest => do
+    -- the legal plain moves, enumerated from the generator model: complete by
+    -- `C03_generator_complete` (every legal plain move is generated), duplicate-free by
+    -- `C03_generator_nodup`; much cheaper than `legal` on 7x7 / 8x8
+    let p ← parsePos rest
+    pure (showMoves ((Tak.Gen.allMoves p).filter (Rules.legalb p)))
   | "legalmask" :: rest => do
     let p ← parsePos (rest.take 7)
     match rest.drop 7 with
